@@ -465,6 +465,16 @@ _orig_sfm = M.symbolic_filter_map
 
 def _sfm(it, fr, e, xs):
     r = _orig_sfm(it, fr, e, xs)
+    # Skolemised form of the engine's "every passing element is kept" axiom (an inverse of the index map `src`), so that
+    # a proof can name the position of a kept element: for all i passing the filter, src[isrc[i]] = i.
+    run = it.run
+    isrc = run.fresh('cisrc', z3.ArraySort(z3.IntSort(), z3.IntSort()))
+    i = z3.Int('i!isrc')
+    run.axiom(z3.ForAll([i], z3.Implies(z3.And(i >= 0, i < xs.n, r.cond_at(i)),
+                                        z3.And(isrc[i] >= 0, isrc[i] < r.n, r.src[isrc[i]] == i)), patterns=[isrc[i]]))
+    if not hasattr(run, 'sfm_inverse'):
+        run.sfm_inverse = {}
+    run.sfm_inverse[r.src.get_id()] = isrc
     d = getattr(xs, 'alias_of', None)
     if d is not None:
         # is the element expression (part of) the stored element?  evaluate it on a probe element and compare identities
